@@ -181,8 +181,10 @@ def scalar_hook(extra=None, d=None, ell=None):
             return _div(it, V + U, V - U)
         if name in ("mf.solve", "mf.spsolve", "mf.solve_triangular", "la.solve", "la.lu_solve", "la.solve_triangular", "np.linalg.solve") and n >= 2:
             return _div(it, pos[1], pos[0])
-        if name in ("la.lu_factor", "np.asarray", "np.array", "np.atleast_1d", "np.atleast_2d", "np.transpose", "np.real", "np.ascontiguousarray") and n >= 1:
+        if name in ("la.lu_factor", "np.asarray", "np.atleast_1d", "np.atleast_2d", "np.transpose", "np.real", "np.ascontiguousarray") and n >= 1:
             return pos[0]
+        if name in ("np.array", "np.copy") and n >= 1:
+            return clone(pos[0])
         if name in ("np.eye", "np.identity"):
             return F.const(1)
         if name in ("np.zeros", "np.zeros_like", "np.empty", "np.empty_like"):
@@ -989,7 +991,7 @@ def r6_augmented(ctx):
 
 RULES = [
     ("C07-R1", r1_pade_tables, 29),
-    ("C07-R2", r2_thresholds, 29),
+    ("C07-R2", r2_thresholds, 30),
     ("C07-R3", r3_squaring, 18),
     ("C07-R4", r4_siblings, 17),
     ("C07-R5", r5_ssmodel, 34),
